@@ -668,22 +668,16 @@ def generate(route, srcdir, options, shuffle=None):
     finally:
         set_shuffle(None)
         os.chdir(cwd)
-        _wipe(out)
+        import shutil
 
-
-_OUT = [None]
+        shutil.rmtree(out, ignore_errors=True)
 
 
 def _outdir():
-    """xsdata caches Path.cwd() in package_path/module_path (lru_cache), so one
-    process must always generate into the same working directory."""
-    if _OUT[0] is None:
-        _OUT[0] = tempfile.mkdtemp(prefix="c12out")
-        import atexit
-        import shutil
-
-        atexit.register(lambda: shutil.rmtree(_OUT[0], ignore_errors=True))
-    return _OUT[0]
+    """A fresh working directory for every generation: each run is a generation
+    in the same process after a chdir (package_path/module_path used to cache
+    Path.cwd(); see known_findings.json, fixed C12 bc86f36)."""
+    return os.path.realpath(tempfile.mkdtemp(prefix="c12out"))
 
 
 def _wipe(d):
